@@ -83,6 +83,8 @@ func (u *decodeUnit) cycle(cycle int, app risc.Application, ctx *risc.Context) {
 		}
 		if runner.InstructionType() == risc.Ret {
 			u.ret = true
+			// Nothing behind a return is decoded, not even in this cycle
+			return
 		}
 	}
 }
